@@ -2,8 +2,8 @@
 (`navis/io/swc_io.py`, read as text, walked with `ast`; nothing is imported from navis).
 
 * `make_swc_table`: the initial label, the label rules in source order (`swc.loc[<selector>, "label"] = <code>`:
-  type == branch / end, soma, pre, post; which of them sit under `if export_connectors:`), the sort column and
-  direction, the offset of `swc.index.values + <k>`, the default of `new_ids.get(x, <d>)`, the column selection,
+  type == branch / end, soma, pre, post; which of them sit under `if export_connectors:`), the sort column, its source, direction and
+  kind (stable), the recognised shape of the `_node_depths` loop, the offset of `swc.index.values + <k>`, the default of `new_ids.get(x, <d>)`, the column selection,
   the `fillna(<v>)` of the radius;
 * `_write_swc`: the attributes written by `write_meta=True`, the `Meta:` prefix;
 * `NODE_COLUMNS`, the default `soma_label` of `read_swc` / `SwcReader.__init__`, the dtype given to the `label` column.
@@ -99,8 +99,8 @@ def generate(repo: Path):
             srcs[n.targets[0].id] = ast.unparse(n.value)
     if 'presynapses' not in srcs.get('pre_ids', '') or 'postsynapses' not in srcs.get('post_ids', ''):
         raise ValueError(f'make_swc_table: pre/post ids come from {srcs}')
-    # sort
-    sort_col, sort_asc = None, True
+    # sort: swc["_depth"] = _node_depths(swc.node_id.values, swc.parent_id.values); swc.sort_values("_depth", kind="stable")
+    sort_col, sort_asc, sort_kind = None, True, 'quicksort'
     for n in ast.walk(mk):
         if isinstance(n, ast.Call) and isinstance(n.func, ast.Attribute) and n.func.attr == 'sort_values':
             sort_col = _const(n.args[0]) if n.args else None
@@ -109,8 +109,28 @@ def generate(repo: Path):
                     sort_asc = bool(_const(kw.value))
                 if kw.arg == 'by':
                     sort_col = _const(kw.value)
+                if kw.arg == 'kind':
+                    sort_kind = str(_const(kw.value))
     if sort_col is None:
         raise ValueError('make_swc_table: sort_values call not found')
+    # where the sort key comes from (a column computed in make_swc_table, or a column of the node table)
+    sort_key_src = 'column of x.nodes'
+    for n in ast.walk(mk):
+        if isinstance(n, ast.Assign) and len(n.targets) == 1 and isinstance(n.targets[0], ast.Subscript) \
+                and isinstance(n.targets[0].value, ast.Name) and n.targets[0].value.id == 'swc' \
+                and isinstance(n.targets[0].slice, ast.Constant) and n.targets[0].slice.value == sort_col:
+            sort_key_src = ast.unparse(n.value)
+    # the depth helper: every node's depth is its parent's depth + 1, nodes without (present) parent start at 0
+    depth_rule = 'n/a'
+    try:
+        nd = _func(tree, '_node_depths')
+        txt = ast.unparse(nd)
+        if 'depths.get(node, -1)' in txt and 'd += 1' in txt and 'parents[node]' in txt:
+            depth_rule = 'root=0;child=parent+1'
+        else:
+            depth_rule = 'unrecognised'
+    except ValueError:
+        pass
     # new ids: dict(zip(swc.node_id.values, swc.index.values + k))
     offset = None
     for n in ast.walk(mk):
@@ -193,9 +213,13 @@ def lblEnd : Int := {codes['end']}
 def lblSoma : Int := {codes['soma']}
 def lblPre : Int := {codes['pre']}
 def lblPost : Int := {codes['post']}
-/-- `swc.sort_values("{sort_col}", ascending={sort_asc})` -/
+/-- `swc["{sort_col}"] = {sort_key_src}` ; `swc.sort_values("{sort_col}", ascending={sort_asc}, kind="{sort_kind}")` -/
 def sortColumn : String := "{sort_col}"
 def sortAscending : Bool := {'true' if sort_asc else 'false'}
+def sortKind : String := "{sort_kind}"
+def sortKeySource : String := "{sort_key_src}"
+/-- what `_node_depths` computes (recognised shape of its loop) -/
+def depthRule : String := "{depth_rule}"
 /-- `dict(zip(swc.node_id.values, swc.index.values + {offset}))` -/
 def firstId : Int := {offset}
 /-- `new_ids.get(x, {missing})` -/
@@ -215,6 +239,6 @@ def metaPrefix : String := "{meta_prefix}"
 
 end Navis.Gen.Swc
 '''
-    meta = dict(source=str(path.relative_to(repo)), label_codes=codes, init=init, sort=sort_col, first_id=offset, missing_parent=missing,
+    meta = dict(source=str(path.relative_to(repo)), label_codes=codes, init=init, sort=sort_col, sort_kind=sort_kind, sort_key=sort_key_src, depth_rule=depth_rule, first_id=offset, missing_parent=missing,
                 columns=cols, node_columns=node_cols, reader_soma_label=soma_read, label_dtype=label_dtype, meta_keys=meta_keys)
     return 'Swc.lean', lean, meta
